@@ -184,24 +184,30 @@ def run_replay(case):
 
 
 def _converged_system(wt, rng, nw, dt, shape):
-    """closed/open-shell problem whose trial is a converged SCF solution (so trial.optimize is a fixed point)"""
-    import jax.numpy as jnp
-
+    """closed/open-shell problem whose trial is a converged, *stable* SCF solution: the library's undamped Roothaan iteration
+    (trial.optimize) started there must stay there, which is checked with the independent NumPy iteration of checks.c18"""
     from checks import c18
 
     norb = 4
     ne = (2, 2) if wt == "rhf" else (2, 1)
     kind = "rhf" if wt == "rhf" else "uhf"
-    q, _ = np.linalg.qr(rng.normal(size=(norb, norb)))
-    lev = np.sort(rng.uniform(-2, 0, size=norb))
-    lev[2:] += 1.5
-    hm = (q * lev) @ q.T
-    h = np.array([hm, hm])
-    chol = rng.normal(size=(3, norb, norb)) * 0.25
-    chol = (chol + chol.transpose(0, 2, 1)) / 2
-    C0 = c18.occ(hm, ne[0])[0] if kind == "rhf" else [c18.occ(hm, ne[0])[0], c18.occ(hm, ne[1])[0]]
-    Cs, Es, res, gap = c18.solve(kind, 0.1, h, chol, ne[0], ne[1], C0, damp=0.5, iters=500)
-    return kind, ne, (0.1, h, chol.reshape(3, -1)), Cs
+    for attempt in range(50):
+        q, _ = np.linalg.qr(rng.normal(size=(norb, norb)))
+        lev = np.sort(rng.uniform(-2, 0, size=norb))
+        lev[2:] += 1.5
+        hm = (q * lev) @ q.T
+        h = np.array([hm, hm])
+        chol = rng.normal(size=(3, norb, norb)) * 0.25
+        chol = (chol + chol.transpose(0, 2, 1)) / 2
+        C0 = c18.occ(hm, ne[0])[0] if kind == "rhf" else [c18.occ(hm, ne[0])[0], c18.occ(hm, ne[1])[0]]
+        Cs, Es, res, gap = c18.solve(kind, 0.1, h, chol, ne[0], ne[1], C0, damp=0.5, iters=500)
+        if res > 1e-12 or gap < 0.3:
+            continue
+        Cu, Eu, resu, _ = c18.solve(kind, 0.1, h, chol, ne[0], ne[1], Cs, damp=0.0, iters=30)
+        drift = max(np.linalg.norm(a - b) for a, b in zip(c18.proj(kind, Cu), c18.proj(kind, Cs)))
+        if drift < 1e-11:
+            return kind, ne, (0.1, h, chol.reshape(3, -1)), Cs
+    raise RuntimeError("no stable SCF problem found")
 
 
 def run_entry(case):
